@@ -153,9 +153,13 @@ pub proof fn lemma_skip_nl_len(b: Seq<u8>)
         /*@L:is_valid_iff_class_then_member_in_first_50:C19*/ ret == exists|i: int, j: int| 0 <= i < j < 50 && j < records(self.source@).len()
             && is_class(#[trigger] records(self.source@)[i]) && is_member(#[trigger] records(self.source@)[j]),""")
     # R6: split `P1 | P2 if G => B` into two arms (Verus: or-pattern with guard unsupported)
-    v.replace_re(r"Ok\(ProguardRecord::Field \{ \.\. \}\) \| Ok\(ProguardRecord::Method \{ \.\. \}\)\s*if has_class_line =>\s*\{\s*return true;\s*\}",
-                 "Ok(ProguardRecord::Field { .. }) if has_class_line => { return true; }\n                Ok(ProguardRecord::Method { .. }) if has_class_line => { return true; }",
-                 "R6", why="or-pattern with a guard split into two arms with the same guard and body") if __import__("re").search(r"Ok\(ProguardRecord::Field \{ \.\. \}\) \| Ok\(ProguardRecord::Method", v.orig) else None
+    import re as _re
+    _m = _re.search(r"Ok\(ProguardRecord::Field \{ \.\. \}\) \| Ok\(ProguardRecord::Method \{ \.\. \}\)\s*if (?P<g>[^=]+?)=>\s*(?P<b>\{[^{}]*\})", v.orig)
+    if _m:
+        # guard and body are taken from the text, whatever they are
+        v.replace_span(_m.start(), _m.end(),
+                       "Ok(ProguardRecord::Field { .. }) if %s => %s\n                Ok(ProguardRecord::Method { .. }) if %s => %s" % (_m.group("g").strip(), _m.group("b"), _m.group("g").strip(), _m.group("b")),
+                       "R6", "or-pattern with a guard split into two arms with the same guard and body")
     v.for_iter_name(1, "it")
     v.loop_spec(1, """            invariant
                 it.seq() == records(self.source@).take(50) || (records(self.source@).len() < 50 && it.seq() == records(self.source@)),
